@@ -210,8 +210,19 @@ package check
 //@   at call getSpecialLineComment#1 before assert[else-the-block-ending-on-the-previous-line] arg1 == luaFile && arg2 == line - 1 && arg3 && len(strComment) == 0
 //@   ensures[same-line-comment-wins] hits("getSpecialLineComment#0") == 1
 //@ end
+// the comment table consulted is that of the NEWEST analysis of the file - the one made from the open document's
+// unsaved text when there is one (GetCacheFileStruct), not the start-up scan of the text on disk - because the symbol's
+// line was computed in that text
+//@ func (*AllProject).GetCacheFileStruct
+//@   props C13
+//@   ensures[the-cache-of-newest-analyses-is-consulted-first] hits("Get#0") == 1 && (hits("GetFirstFileStuct#0") == 0 ==> result1)
+//@   at call GetFirstFileStuct#0 before assert[scan-result-is-only-the-fallback-for-the-same-file] streq(arg1, strFile) && hits("Get#0") == 1
+//@ end
 //@ func (*AllProject).getSpecialLineComment
 //@   props C13
+//@   ensures[comment-table-of-the-newest-analysis] hits("GetCacheFileStruct#0") == 1
+//@   at call GetCacheFileStruct#0 before assert[comment-table-of-the-newest-analysis] streq(arg1, inLuaFile)
+//@   at call GetFileLineComment#0 before assert[comment-table-of-the-newest-analysis] arg0 == lastresult("GetCacheFileStruct#0").FileResult
 //@   at call GetFileLineComment#0 before assert[comment-is-looked-up-under-the-given-line] arg1 == lastLine
 //@   ensures[comment-of-the-other-kind-is-not-used] true
 //@   loop range:oneComment.LineVec exits-early-only-if [every-line-of-the-block-is-used] false
@@ -284,6 +295,8 @@ package check
 //@   props C09 C19
 //@   ensures[C09,C19,merged-list-is-sorted-before-the-cap-and-the-answer] hits("sort.Sort#0") == 1 && hits("handleAllFilesSymbols#0") == 1
 //@   at call sort.Sort#0 before assert[C09,C19,everything-is-collected-before-sorting] hits("handleAllFilesSymbols#0") == 1
+//@   at call sort.Sort#0 before assert[C09,C19,the-whole-collected-list-is-sorted-nothing-is-cut-before] resultSort.results == snapshot("handleAllFilesSymbols#0", resultSort.results)
+//@        && typeis(arg0, "*check.resultSorter") && as(arg0, "*check.resultSorter") == resultSort
 //@   loop range:a.fileStructMap exits-early-only-if [C19,every-analysed-file-is-queried] false
 //@   loop range:a.fileStructMap step [C19,every-analysed-file-is-queried] fileStruct.HandleResult == results.FileHandleOk ==> len(fileList) == prev(len(fileList)) + 1
 //@   loop range:resultSort.results exits-early-only-if [C19,every-surviving-symbol-is-returned] false
